@@ -53,8 +53,14 @@ def cid_specs(draw, kinds=KINDS, max_fields=5, types=gen_fields.TYPES, max_heade
             if non_empty:
                 break
         else:
-            field = draw(gen_fields.text_fields(name, fmt))
-            accept, reject = _pools(draw, field, fmt)
+            if kind == "fixed":
+                field = {"name": name, "empty": False, "length": "3", "length_items": [[3, 3]], "type": "Text",
+                         "rule": "", "model": {}}
+                accept, reject = ["abc", "x  ", "yz "], ["   "]
+            else:
+                field = {"name": name, "empty": False, "length": "", "length_items": None, "type": "Text",
+                         "rule": "", "model": {}}
+                accept, reject = ["abc", "x", "yz"], [""]
         field["accept"] = accept[: max(key_pool, 1) + 2]
         field["reject"] = reject[:4]
         fields.append(field)
